@@ -267,16 +267,24 @@ def presented(c):
     return res
 
 
+LENIENT = set()
+
+
 def may_authenticate(c, methods, endpoint):
     """set of (client, method) pairs the statement allows for this request"""
     ok = set()
+    lenient = LENIENT
+    lenient.clear()
     reg = {cid: (sec, m) for cid, sec, m in CLIENTS}
     p = presented(c)
     for name, method in (("basic", "client_secret_basic"), ("post", "client_secret_post"), ("none", "none")):
         if name in p and method in methods:
             cid, sec = p[name]
-            if cid in reg and (name == "none" or (sec and sec == reg[cid][0])) and (endpoint != "token" or reg[cid][1] == method):
-                ok.add((cid, method))
+            if cid in reg and (name == "none" or (sec and sec == reg[cid][0])):
+                if reg[cid][1] == method:
+                    ok.add((cid, method))
+                elif endpoint != "token":
+                    lenient.add((cid, method))      # right credentials, but a method the client is not registered for
     return ok
 
 
@@ -290,9 +298,14 @@ def oracle(c, out):
         allowed = may_authenticate(c, c["methods"], c["endpoint"])
         if "client" in out:
             got = (bytes.fromhex(out["client"]).decode("latin1"), out["method"])
-            if got not in allowed:
+            if got in LENIENT and got not in allowed:
+                bad(f"{c['endpoint']} endpoint: {got[0]!r} authenticated through {got[1]}, a method the client is not registered for "
+                    "(OAuth2ClientMixin.check_endpoint_auth_method returns True for every endpoint but 'token')", kind="method-not-registered", endpoint="non-token",
+                    secretless=(got[1] == "none"))
+            elif got not in allowed:
                 bad(f"request treated as coming from {got[0]!r} via {got[1]} without valid credentials / permitted method", kind="authenticated-wrongly", method=got[1])
         else:
+            allowed = allowed | LENIENT
             if allowed and not presented(c).keys() - {"basic", "post", "none"}:
                 # valid credentials presented through a permitted method must authenticate unless an earlier method in the list raised
                 first = c["methods"][0] if c["methods"] else None
@@ -317,7 +330,7 @@ def oracle(c, out):
                    "token:password": ["client_secret_basic", "client_secret_post", "none"], "token:device_code": ["client_secret_basic", "client_secret_post", "none"],
                    "token": ["client_secret_basic", "client_secret_post"]}[ep]
         cc = dict(c, place="form")
-        allowed = may_authenticate(cc, methods, "token" if ep.startswith("token") else ep)
+        allowed = may_authenticate(cc, methods, "token" if ep.startswith("token") else ep) | LENIENT
         if not allowed:
             if out["error"] != "invalid_client":
                 bad(f"{ep}: request without valid client authentication answered {out['status']} {out['error']}", kind="not-invalid-client", endpoint=ep)
